@@ -38,6 +38,19 @@ type SingleBucketBackend struct {
 
 var _ gofakes3.Backend = &SingleBucketBackend{}
 
+// singleUploadsDir holds objects while they are being received (see
+// PutObject). It lives inside the bucket's Fs, the only one this backend can
+// rename within, and is not part of the bucket: it is never listed and keys
+// below it are refused.
+const singleUploadsDir = ".gofakes3-uploads"
+
+// validSingleObjectName is validObjectName for this backend, which reserves
+// singleUploadsDir.
+func validSingleObjectName(name string) bool {
+	return validObjectName(name) &&
+		name != singleUploadsDir && !strings.HasPrefix(name, singleUploadsDir+"/")
+}
+
 func SingleBucket(name string, fs afero.Fs, metaFs afero.Fs, opts ...SingleOption) (*SingleBucketBackend, error) {
 	if err := ensureNoOsFs("fs", fs); err != nil {
 		return nil, err
@@ -117,7 +130,7 @@ func (db *SingleBucketBackend) getBucketWithFilePrefixLocked(bucket string, pref
 	response := gofakes3.NewObjectList()
 
 	// No key has empty, '.' or '..' segments, so no key matches such a prefix:
-	if prefixPath != "" && !validObjectName(prefixPath) {
+	if prefixPath != "" && !validSingleObjectName(prefixPath) {
 		return response, nil
 	}
 
@@ -141,6 +154,9 @@ func (db *SingleBucketBackend) getBucketWithFilePrefixLocked(bucket string, pref
 		objectPath := path.Join(prefixPath, object)
 
 		if prefixPart != "" && !strings.HasPrefix(object, prefixPart) {
+			continue
+		}
+		if objectPath == singleUploadsDir {
 			continue
 		}
 
@@ -171,6 +187,9 @@ func (db *SingleBucketBackend) getBucketWithArbitraryPrefixLocked(bucket string,
 	response := gofakes3.NewObjectList()
 
 	if err := afero.Walk(db.fs, filepath.FromSlash("."), func(path string, info os.FileInfo, err error) error {
+		if err == nil && info.IsDir() && filepath.ToSlash(path) == singleUploadsDir {
+			return filepath.SkipDir
+		}
 		if err != nil || info.IsDir() {
 			return err
 		}
@@ -253,7 +272,7 @@ func (db *SingleBucketBackend) HeadObject(bucketName, objectName string) (*gofak
 		return nil, gofakes3.BucketNotFound(bucketName)
 	}
 
-	if !validObjectName(objectName) {
+	if !validSingleObjectName(objectName) {
 		return nil, gofakes3.KeyNotFound(objectName)
 	}
 
@@ -289,7 +308,7 @@ func (db *SingleBucketBackend) GetObject(bucketName, objectName string, rangeReq
 		return nil, gofakes3.BucketNotFound(bucketName)
 	}
 
-	if !validObjectName(objectName) {
+	if !validSingleObjectName(objectName) {
 		return nil, gofakes3.KeyNotFound(objectName)
 	}
 
@@ -356,7 +375,7 @@ func (db *SingleBucketBackend) PutObject(
 		return result, gofakes3.BucketNotFound(bucketName)
 	}
 
-	if !validObjectName(objectName) {
+	if !validSingleObjectName(objectName) {
 		return result, invalidObjectName(objectName)
 	}
 
@@ -371,30 +390,39 @@ func (db *SingleBucketBackend) PutObject(
 	objectFilePath := filepath.FromSlash(objectName)
 	objectDir := filepath.Dir(objectFilePath)
 
-	if objectDir != "." {
-		if err := db.fs.MkdirAll(objectDir, 0777); err != nil {
-			return result, err
-		}
+	// The body is written to a temporary file and only moved into place once
+	// it has arrived in full and the reader's checks (length, Content-MD5)
+	// have passed. Writing to the destination directly would truncate the
+	// stored object before the upload is known to be good, and would let a
+	// concurrent reader of the old object, or a copy of the object onto
+	// itself, see a partially written file.
+	if err := db.fs.MkdirAll(singleUploadsDir, 0777); err != nil {
+		return result, err
 	}
-
-	f, err := db.fs.Create(objectFilePath)
+	f, err := afero.TempFile(db.fs, singleUploadsDir, "put-")
 	if err != nil {
 		return result, err
 	}
+	tmpFilePath := f.Name()
 
-	var closed bool
+	var closed, committed bool
 	defer func() {
 		// Unfortunately, afero's MemMapFs updates the mtime if you double-close, which
 		// highlights that other afero.Fs implementations may have side effects here::
 		if !closed {
 			f.Close()
 		}
+		if !committed {
+			db.fs.Remove(tmpFilePath)
+		}
 	}()
 
 	hasher := md5.New()
 	w := io.MultiWriter(f, hasher)
-	if _, err := io.Copy(w, input); err != nil {
+	if n, err := io.Copy(w, input); err != nil {
 		return result, err
+	} else if n != size {
+		return result, gofakes3.ErrIncompleteBody
 	}
 
 	// We have to close here before we stat the file as some filesystems don't update the
@@ -402,8 +430,17 @@ func (db *SingleBucketBackend) PutObject(
 	if err := f.Close(); err != nil {
 		return result, err
 	}
-
 	closed = true
+
+	if objectDir != "." {
+		if err := db.fs.MkdirAll(objectDir, 0777); err != nil {
+			return result, err
+		}
+	}
+	if err := db.fs.Rename(tmpFilePath, objectFilePath); err != nil {
+		return result, err
+	}
+	committed = true
 
 	stat, err := db.fs.Stat(objectFilePath)
 	if err != nil {
@@ -466,7 +503,7 @@ func (db *SingleBucketBackend) DeleteObject(bucketName, objectName string) (resu
 }
 
 func (db *SingleBucketBackend) deleteObjectLocked(bucketName, objectName string) error {
-	if !validObjectName(objectName) {
+	if !validSingleObjectName(objectName) {
 		// Such a key cannot have been stored, so there is nothing to delete:
 		return nil
 	}
